@@ -9,4 +9,4 @@ Definition cx_float_cmp := float_cmp.
 
 Extraction Language OCaml.
 Extraction "../ocaml/gen/Cmp.ml" value_cmp v_eq v_neq v_gt v_lt v_ge v_le has_sort value_ord
-  float_of_bits tree_of_sets spec_tree_of_sets assoc_get eq_get spec_get cx_int_cmp_trunc cx_float_cmp z_of_cmp.
+  float_of_bits tree_of_sets spec_tree_of_sets assoc_get eq_get spec_get cx_int_cmp_trunc cx_float_cmp z_of_cmp operand_cmp operand_value preds_of.
